@@ -18,6 +18,10 @@ func init() {
 			"Not decided: that user effects reply exactly once per request; latency classes; behaviour with a caller-supplied unbuffered channel.",
 		Trusted: append([]string{"the effect replies at most once per request"}, commonTrusted...),
 		Run:     runC13,
+		Relies: []Dep{
+			{Prop: "C12", Rule: "R2", Keys: []string{"ActorDef/"}, Floor: 1, Why: "an ask travels through the target's mailbox: each message is handed to the effect once, in order"},
+			{Prop: "C12", Rule: "R3", Keys: []string{"ActorDef.Send"}, Floor: 1, Why: "an ask travels through the target's mailbox: Send enqueues exactly once"},
+		},
 	})
 }
 
